@@ -16,6 +16,7 @@ import Driver.C17
 import Driver.C11
 import Driver.C14
 import Driver.C08
+import Driver.C01S
 
 def main (args : List String) : IO UInt32 := do
   match args with
@@ -37,4 +38,5 @@ def main (args : List String) : IO UInt32 := do
   | "c11" :: _ => Driver.C11.main; return 0
   | "c14" :: _ => Driver.C14.main; return 0
   | "c08" :: _ => Driver.C08.main; return 0
+  | "c01s" :: _ => Driver.C01S.main; return 0
   | _ => IO.eprintln "usage: ssdriver <model> < ops"; return 2
